@@ -219,6 +219,10 @@ def parse_const(s):
     m = re.match(r"^(-?\d+)_(u8|u16|u32|u64|u128|usize|i8|i16|i32|i64|i128|isize)$", s)
     if m:
         return ("int", int(m.group(1)), m.group(2))
+    m = re.match(r"^'\x01(\d+)\x01'$", s)
+    if m:
+        ch = _unescape(STRTAB[int(m.group(1))])
+        return ("char", ch)
     m = re.match(r"^'(.*)'$", s)
     if m:
         ch = m.group(1)
@@ -351,7 +355,12 @@ def _hide_strings(s):
     def rep(m):
         STRTAB.append(m.group(1))
         return '"\x00%d\x00"' % (len(STRTAB) - 1)
-    return re.sub(r'"((?:[^"\\]|\\.)*)"', rep, s)
+    s = re.sub(r'"((?:[^"\\]|\\.)*)"', rep, s)
+
+    def repc(m):
+        STRTAB.append(m.group(1))
+        return "'\x01%d\x01'" % (len(STRTAB) - 1)
+    return re.sub(r"'((?:\\u\{[0-9a-fA-F]+\}|\\.|[^'\\]))'", repc, s)
 
 
 def _unescape(t):
